@@ -93,6 +93,23 @@ pub struct RecoveryCostEstimate {
     pub wal_size_bytes: u64,
 }
 
+/// verification hooks (add-only): the two crate-private replay routines behind
+/// `SharedDatabase::checkpoint` / `Drop` and `Database::open`, callable on a bare directory of
+/// table files + a WAL directory, so that the page-store/WAL model can be run against them.
+#[cfg(kahflane_turdb_verif)]
+impl Database {
+    pub fn verif_replay_schema_tables_from_segments(
+        schema_path: &Path,
+        segments: &[std::path::PathBuf],
+    ) -> Result<u32> {
+        Self::replay_schema_tables_from_segments(schema_path, segments)
+    }
+
+    pub fn verif_recover_all_tables_in(db_path: &Path, wal_dir: &Path) -> Result<u32> {
+        Self::recover_all_tables(db_path, wal_dir)
+    }
+}
+
 impl Database {
     pub(crate) fn recover_all_tables(db_path: &Path, wal_dir: &Path) -> Result<u32> {
         use std::fs;
